@@ -21,7 +21,7 @@ RULE = ("worlds with three-phase mixed-sign constraint matrices (1-6 constraints
         "distinct phase angles; distinct = history signature + probe pattern")
 PROBES = ["probe", "concurrent_callers", "negative_limit_probe", "algorithm_side_default_tolerances", "creeping_schedule_probe", "non_finite_entry_probe", "probe_within_2tol_mixed_sign", "explicit_tolerances", "rel_tol_dominates", "linear_probe", "multi_period",
           "negative_entries", "one_dim_vector", "constraint_free_world", "constraint_free_sorted_completed", "dict_omitted_rows",
-          "executed_columns_checked", "invalid_schedule_warning_seen", "probe_after_reconfig", "exact_boundary_probe", "tolerances_retuned_between_questions", "infrastructure_description_edited_and_asked_again",
+          "executed_columns_checked", "invalid_schedule_warning_seen", "probe_after_reconfig", "exact_boundary_probe", "tolerances_retuned_between_questions", "neighbouring_site_asked_in_between", "infrastructure_description_edited_and_asked_again",
           "exactly_at_limit_plus_tol", "exact_linear_probe"]
 FAULT_DIMENSION = ("environment fault only: the operator changes a constraint limit between two periods (all three checkers must "
                    "follow); otherwise state/message distribution (pure function); probes are messages the party sends during a run")
@@ -119,7 +119,20 @@ def cons_of(sc):
     return [([float(c["coeffs"].get(s, 0)) for s in ids], float(c["limit"])) for c in sc["network"]["constraints"]]
 
 
-def probe_once(out, sc, nw, iface, r, tag, cons):
+def neighbour_of(sc):
+    """A second site alive in the same process: the same station ids, every station on another phase, one feeder limit of its own."""
+    ids = [s["id"] for s in sc["network"]["stations"]]
+    rot = {30: 150, 150: -90, -90: 30}
+    phases = [float(rot.get(s["phase"], s["phase"] + 60)) for s in sc["network"]["stations"]]
+    nb = sut.ChargingNetwork()
+    for i, sid in enumerate(ids):
+        nb.register_evse(sut.EVSE(sid, max_rate=1000), 208, phases[i])
+    lim = 7.0 * len(ids)
+    nb.add_constraint(sut.Current({sid: 1 for sid in ids}), lim, name="feeder")
+    return nb, [([1.0] * len(ids), lim)], phases
+
+
+def probe_once(out, sc, nw, iface, r, tag, cons, neighbour=None):
     ids = [s["id"] for s in sc["network"]["stations"]]
     phases = [s["phase"] for s in sc["network"]["stations"]]
     N = len(ids)
@@ -172,6 +185,16 @@ def probe_once(out, sc, nw, iface, r, tag, cons):
         d[ids[0]] = list(M[0])
     if omitted:
         out.probe("dict_omitted_rows")
+    if neighbour is not None:
+        # the neighbouring site is asked first (the two sites take turns for the rest of the run); each answer is about the site asked
+        nb_, cons_nb, ph_nb = neighbour
+        mnb, _ = phasor.margins(cons_nb, ph_nb, M, 1e-5, 1e-7)
+        got_nb = bool(nb_.is_feasible(A))
+        out.probe("neighbouring_site_asked_in_between")
+        if abs(mnb) >= 1e-9 * max(1.0, cons_nb[0][1]) and got_nb != (mnb >= 0):
+            out.add("C06/network_vs_phasor", "%s: a second network alive in the same process (same station ids, other phase angles, its own feeder limit), asked in turns "
+                    "with the first: it says %s, the phasor definition for ITS angles and limit says %s (margin %.3e A)" % (tag, got_nb, mnb >= 0, mnb))
+            return
     res = {
         "network": bool(nw.is_feasible(A, False, kw.get("violation_tolerance"), kw.get("relative_tolerance"))),
         "interface": bool(iface.is_feasible(d, False, kw.get("violation_tolerance"), kw.get("relative_tolerance"))),
@@ -393,7 +416,9 @@ def check(sc):
             cons_t = cons_at(sc, rec["t"])
             if any(rc["t"] <= rec["t"] for rc in sc.get("reconfig", ())):
                 box["out"].probe("probe_after_reconfig")
-            probe_once(box["out"], sc, ctx.sim.network, iface, r, "t=%d" % rec["t"], cons_t)
+            if "nb" not in state:
+                state["nb"] = neighbour_of(sc) if sub(sc["seed"], "neighbour").random() < 0.3 else None
+            probe_once(box["out"], sc, ctx.sim.network, iface, r, "t=%d" % rec["t"], cons_t, neighbour=state["nb"])
             if sc.get("exact") and cons_t and not box["out"].viol:
                 probe_exact(box["out"], sc, ctx.sim.network, iface, sub(sc["seed"], "exact", rec["t"], state["n"]), "t=%d" % rec["t"], cons_t)
         ctx.post_hooks.append(post)
